@@ -157,7 +157,10 @@ class _STIXBase(collections.abc.Mapping):
         # Note: "extensions" hasn't been validated yet; it may be anything.
         # STIX 2.0 has no extension definitions: there such an entry does not
         # excuse extra properties.
+        # Nor can anything but an object be extended: the embedded types
+        # (external references, kill chain phases, ...) have no "type".
         if isinstance(extensions, collections.abc.Mapping) \
+                and "type" in self._properties \
                 and not isinstance(self, stix2.v20._STIXBase20):
             for ext_id, ext in extensions.items():
                 if not isinstance(ext, collections.abc.Mapping):
